@@ -37,7 +37,20 @@ use crate::shredder::{
     ValidatedShred,
 };
 use crate::types::{ReconstructedSlice, SliceIndex, SlicePayload};
-use crate::{Block, Slot};
+use crate::{Block, Slot, Transaction};
+
+/// Upper bound on the number of transactions a single slice can encode.
+///
+/// Every encoded transaction takes at least the 8 bytes of its length prefix,
+/// and the block producer fills a slice by bytes, not by transaction count.
+const MAX_TXS_PER_SLICE: usize = MAX_DATA_PER_SLICE / 8;
+/// Preallocation limit for decoding the transactions of a single slice.
+///
+/// The limit is checked against the in-memory size of the decoded vector
+/// (`count * size_of::<Transaction>()`), not against the encoded size.
+/// It thus has to cover the largest transaction count a slice can encode,
+/// otherwise a slice of many small transactions from a correct leader is undecodable.
+const MAX_TXS_PREALLOCATION: usize = MAX_TXS_PER_SLICE * size_of::<Transaction>();
 
 /// Errors that may be encountered when adding a shred.
 ///
@@ -442,9 +455,9 @@ impl BlockData {
                 parent = new_parent;
             }
 
-            // cap preallocation to the slice size limit (wincode has a 4 MiB default)
+            // cap preallocation to what the transactions of one slice can need (wincode has a 4 MiB default)
             let config =
-                DefaultConfig::default().with_preallocation_size_limit::<MAX_DATA_PER_SLICE>();
+                DefaultConfig::default().with_preallocation_size_limit::<MAX_TXS_PREALLOCATION>();
             let mut txs = match wincode::config::deserialize_exact(&slice.data, config) {
                 Ok(r) => r,
                 Err(err) => {
